@@ -176,6 +176,20 @@ def _run(case, ctx, d, which):
             ctx.violation('raised', desc, 'convert() raised %r' % rr.exc, dict(f0, exc=rr.exc_name, stage='convert'), tb=rr.tb)
             return
         m2 = rr.value
+        if case['seed'][-1] % 4 == 1 and case.get('source') != 'merged':
+            # history: a second conversion of the same model into another directory (the source now holds the
+            # subset store written by the first one); the second output is the one judged
+            ctx.cell('converted_twice')
+            if m2 is not None:
+                call(m2.close)
+            out = os.path.join(d, 'alf_again')
+            rr = call(EphysAlfCreator(m).convert, out, label=label, ampfactor=factor)
+            after = snapshot(src)
+            if not rr.ok:
+                ctx.violation('raised', desc, 'second convert() raised %r' % rr.exc,
+                              dict(f0, exc=rr.exc_name, stage='convert_again'), tb=rr.tb)
+                return
+            m2 = rr.value
         try:
             if which == 'C13':
                 _oracle_c13(ctx, desc, f0, spec, src, out, m, m2, label, before, after, audit)
